@@ -13,7 +13,7 @@ PROPERTY = "C09"
 LEVEL = "exploration"
 BUDGET_S = {"quick": 50, "thorough": 900}
 FLOOR = {"quick": 3000, "thorough": 100000}
-MUST_REACH = ("table_entries_judged", "protocol_numbers_judged", "splitter_cases_judged", "number_roundtrips_judged", "platform_switch_histories", "config_level_renderings", "protocol_reassign_histories", "generated_line_renderings", "nested_switch_renderings", "generated_protocol_lines")
+MUST_REACH = ("table_entries_judged", "protocol_numbers_judged", "splitter_cases_judged", "number_roundtrips_judged", "platform_switch_histories", "config_level_renderings", "protocol_reassign_histories", "generated_line_renderings", "nested_switch_renderings", "generated_protocol_lines", "returned_tables_edited_then_asked_again")
 RULE = ("complete enumeration: {asa,ios,nxos} x version strings {'', '15', '15.2(02)SY', '16.09.06', '9.3(8)'} x {tcp,udp} x "
         "every table name (name -> number vs oracle/names.py; number -> rendered name -> parsed back), every protocol "
         "number 0..255 x platform x protocol_nr x has_port and every protocol name x platform, one ACE per table name on "
@@ -66,6 +66,35 @@ def run(ctx) -> None:
 
     all_names = set()
     tables = []
+    # 0. the tables handed out belong to the caller: whatever is done to them, the next answer is the same table
+    from cisco_acl import port_name as _pn  # pylint: disable=import-outside-toplevel
+
+    for platform, version, proto, pn in _tables():
+        case = {"table": [platform, version, proto], "history": "query, edit the returned object, query again"}
+        for view in ("names", "ports"):
+            first = getattr(pn, view)()
+            snapshot = dict(first)
+            first["bogus-entry" if view == "names" else 65000] = 65000 if view == "names" else "bogus-entry"
+            if snapshot:
+                first.pop(next(iter(snapshot)))
+            for key in list(first)[:3]:
+                first[key] = "changed" if view == "ports" else 1
+            again = getattr(type(pn)(protocol=proto, platform=platform, version=version), view)()
+            if dict(again) != snapshot:
+                ctx.violation(case, f"PortName.{view}() answers differently after the caller edited an earlier answer",
+                              {"diff_keys": sorted(map(str, set(again) ^ set(snapshot)))[:6]})
+            ctx.count("returned_tables_edited_then_asked_again")
+    known = _pn.all_known_names()
+    snapshot = list(known)
+    try:
+        known += ["eq", "any", "log", "log-input"]
+        known.remove(snapshot[0])
+    except (AttributeError, TypeError, ValueError):
+        pass  # an immutable or lazy answer cannot be edited: fine
+    if list(_pn.all_known_names()) != snapshot:
+        ctx.violation({"function": "port_name.all_known_names"}, "all_known_names() answers differently after the caller edited an earlier answer",
+                      {"extra": sorted(set(_pn.all_known_names()) - set(snapshot))[:6]})
+    ctx.count("returned_tables_edited_then_asked_again")
     for platform, version, proto, pn in _tables():
         n2p = pn.names()
         p2n = pn.ports()
